@@ -107,21 +107,64 @@ Proof.
   pose proof (prog_dominated _ _ HD p HT). lia.
 Qed.
 
-Theorem pipeline_clean : forall ps es, blocks_dominated ps es = true ->
-  forall room p, (forall l, In l (leaves_of_list p) -> thin ps es l = true) -> pipeline ps es room p <> 2.
+(* the outcome of the pipeline, case by case *)
+Theorem pipeline_cases : forall g ps es room p,
+  (pipeline g ps es room p = 0 <-> (need_prog ps p <= room /\ need_prog es p <= room)) /\
+  (pipeline g ps es room p = 1 <-> room < need_prog ps p) /\
+  (pipeline g ps es room p = 2 <-> (g = false /\ need_prog ps p <= room /\ room < need_prog es p)) /\
+  (pipeline g ps es room p = 3 <-> (g = true /\ need_prog ps p <= room /\ room < need_prog es p)).
 Proof.
-  intros ps es HD room p HT. unfold pipeline.
-  destruct (fits ps room p) eqn:E1; [|discriminate].
-  rewrite (accepted_fits _ _ HD room p HT E1). discriminate.
+  intros g ps es room p. unfold pipeline, fits.
+  destruct (need_prog ps p <=? room) eqn:E1; destruct (need_prog es p <=? room) eqn:E2; destruct g;
+    try apply Z.leb_le in E1; try apply Z.leb_le in E2; try apply Z.leb_gt in E1; try apply Z.leb_gt in E2;
+    repeat split; intros; try discriminate; try lia; try reflexivity;
+    match goal with H : _ /\ _ |- _ => destruct H as [? ?]; try discriminate; try lia end.
 Qed.
 
-Theorem pipeline_crash_iff : forall ps es room p,
-  pipeline ps es room p = 2 <-> (need_prog ps p <= room /\ room < need_prog es p).
+(* an internal error exactly when emit() is unguarded and the script lies in the window parse's need <= room < emit's need *)
+Theorem pipeline_crash_iff : forall g ps es room p,
+  pipeline g ps es room p = 2 <-> (g = false /\ need_prog ps p <= room /\ room < need_prog es p).
+Proof. intros g ps es room p. apply (pipeline_cases g ps es room p). Qed.
+
+(* a guarded emit(): for EVERY pair of constant tables, every tree, every room - never an internal error, and the only
+   outcomes are firmware or a clean rejection by one of the two stages *)
+Theorem guarded_pipeline_clean : forall ps es room p, pipeline true ps es room p <> 2.
 Proof.
-  intros ps es room p. unfold pipeline, fits.
-  destruct (need_prog ps p <=? room) eqn:E1; destruct (need_prog es p <=? room) eqn:E2;
-    try apply Z.leb_le in E1; try apply Z.leb_le in E2; try apply Z.leb_gt in E1; try apply Z.leb_gt in E2;
-    split; intro H; try discriminate; try lia; try reflexivity.
+  intros ps es room p H. apply pipeline_crash_iff in H. destruct H as [H _]. discriminate.
+Qed.
+
+Theorem guarded_pipeline_outcomes : forall ps es room p,
+  pipeline true ps es room p = 0 \/ pipeline true ps es room p = 1 \/ pipeline true ps es room p = 3.
+Proof.
+  intros ps es room p. unfold pipeline.
+  destruct (fits ps room p); [destruct (fits es room p)|]; auto.
+Qed.
+
+(* the former window is a clean rejection by emit() *)
+Theorem guarded_window_rejects : forall ps es room p,
+  need_prog ps p <= room -> room < need_prog es p -> pipeline true ps es room p = 3.
+Proof. intros ps es room p H1 H2. apply (pipeline_cases true ps es room p). auto. Qed.
+
+(* ... and the guard is what makes it so: the same script without it *)
+Theorem unguarded_window_crashes : forall ps es room p,
+  need_prog ps p <= room -> room < need_prog es p -> pipeline false ps es room p = 2.
+Proof. intros ps es room p H1 H2. apply pipeline_crash_iff. auto. Qed.
+
+(* the guard changes nothing but the kind of the failure: firmware and rejection by parse() are the same with and without *)
+Theorem guard_only_changes_the_kind : forall ps es room p,
+  (pipeline true ps es room p = 0 <-> pipeline false ps es room p = 0) /\
+  (pipeline true ps es room p = 1 <-> pipeline false ps es room p = 1) /\
+  (pipeline true ps es room p = 3 <-> pipeline false ps es room p = 2).
+Proof.
+  intros ps es room p. unfold pipeline.
+  destruct (fits ps room p); [destruct (fits es room p)|]; repeat split; intros; try discriminate; reflexivity.
+Qed.
+
+(* which scripts still yield firmware: under dominance (and thin simple statements) everything parse() accepts *)
+Theorem accepted_yields_firmware : forall g ps es, blocks_dominated ps es = true ->
+  forall room p, (forall l, In l (leaves_of_list p) -> thin ps es l = true) -> fits ps room p = true -> pipeline g ps es room p = 0.
+Proof.
+  intros g ps es HD room p HT H. unfold pipeline. rewrite H. rewrite (accepted_fits _ _ HD room p HT H). reflexivity.
 Qed.
 
 (* ---- ladders *)
@@ -151,12 +194,13 @@ Proof.
   destruct k as [|k]; cbn; [reflexivity|]. apply IH. lia.
 Qed.
 
-(* NECESSITY of the frames-per-level condition: a stage that needs even one frame more per level than parse, in any slot,
-   around any simple statement, crashes on some ladder parse() accepts *)
+(* NECESSITY of the guard: a stage that needs even one frame more per level than parse, in any slot, around any simple
+   statement, fails on some ladder parse() accepts - with an internal error when unguarded, cleanly when guarded *)
 Theorem extra_frame_opens_window : forall ps es k l extra,
   (k < length (st_frames es))%nat -> 0 < extra ->
   0 <= getz (st_frames ps) k -> getz (st_frames ps) k <= getz (st_frames es) k ->
-  exists d room, pipeline ps (bump_frames es k extra) room [ladder k d l] = 2.
+  exists d room, pipeline false ps (bump_frames es k extra) room [ladder k d l] = 2
+                 /\ pipeline true ps (bump_frames es k extra) room [ladder k d l] = 3.
 Proof.
   intros ps es k l extra Hk Hx Hp Hpe.
   set (fp := getz (st_frames ps) k) in *. set (fe := getz (st_frames es) k) in *.
@@ -164,7 +208,9 @@ Proof.
   set (ce := getz (st_leaf es) l).
   set (D := Z.max 0 (Mp - ce) + Z.max 0 (st_head ps - ce) + 1).
   exists (Z.to_nat D). exists (Z.max (st_head ps) (Z.max (D * fp + Mp) 0)).
-  apply pipeline_crash_iff.
+  cut (need_prog ps [ladder k (Z.to_nat D) l] <= Z.max (st_head ps) (Z.max (D * fp + Mp) 0)
+       /\ Z.max (st_head ps) (Z.max (D * fp + Mp) 0) < need_prog (bump_frames es k extra) [ladder k (Z.to_nat D) l]).
+  { intros [W1 W2]. split; [apply unguarded_window_crashes|apply guarded_window_rejects]; assumption. }
   assert (HD : 0 <= D) by (unfold D; lia).
   assert (HDn : Z.of_nat (Z.to_nat D) = D) by (apply Z2Nat.id; exact HD).
   split.
@@ -181,3 +227,40 @@ Proof.
     assert (0 <= Mp) by (unfold Mp; lia).
     lia.
 Qed.
+
+(* every tree is transpiled when the caller leaves enough room; the guard plays no part in that *)
+Theorem enough_room_yields_firmware : forall g ps es p room,
+  need_prog ps p <= room -> need_prog es p <= room -> pipeline g ps es room p = 0.
+Proof. intros g ps es p room H1 H2. apply (pipeline_cases g ps es room p). auto. Qed.
+
+(* ---- non-vacuity on a small pair of tables that does not depend on the source: two slots, three simple statements, the
+   third one needs two frames more in emit than in parse *)
+Definition toy_ps : stage := mkstage 3 [1; 1] [2; 4] [2; 1; 1].
+Definition toy_es : stage := mkstage 2 [1; 1] [2; 2] [1; 1; 3].
+
+Example toy_tables :
+  blocks_dominated toy_ps toy_es = true /\ thin toy_ps toy_es 0 = true /\ thin toy_ps toy_es 1 = true /\ thin toy_ps toy_es 2 = false.
+Proof. vm_compute. repeat split; reflexivity. Qed.
+
+(* 10 frames of room: 7 levels around the fat statement are emitted, 8 and 9 levels are accepted by parse and rejected by a
+   guarded emit (an internal error without the guard), 10 levels are rejected by parse *)
+Example toy_window :
+  pipeline true toy_ps toy_es 10 [ladder 0 7 2] = 0 /\
+  pipeline true toy_ps toy_es 10 [ladder 0 8 2] = 3 /\ pipeline true toy_ps toy_es 10 [ladder 0 9 2] = 3 /\
+  pipeline false toy_ps toy_es 10 [ladder 0 8 2] = 2 /\ pipeline false toy_ps toy_es 10 [ladder 0 9 2] = 2 /\
+  pipeline true toy_ps toy_es 10 [ladder 0 10 2] = 1 /\ pipeline false toy_ps toy_es 10 [ladder 0 10 2] = 1.
+Proof. vm_compute. repeat split; reflexivity. Qed.
+
+Example toy_thin_tree_yields_firmware :
+  let p := [ladder 0 9 1; Block 1 [Leaf 0; Block 0 [Leaf 1]; Leaf 1]] in
+  (forall l, In l (leaves_of_list p) -> thin toy_ps toy_es l = true) /\ fits toy_ps 10 p = true /\ pipeline true toy_ps toy_es 10 p = 0
+  /\ fits toy_ps 9 p = false.
+Proof.
+  cbv zeta. split.
+  - intros l Hl. vm_compute in Hl. repeat (destruct Hl as [Hl|Hl]; [subst l; vm_compute; reflexivity|]). contradiction.
+  - vm_compute. repeat split; reflexivity.
+Qed.
+
+Example toy_extra_frame : exists d room,
+  pipeline false toy_ps (bump_frames toy_es 0 1) room [ladder 0 d 0] = 2 /\ pipeline true toy_ps (bump_frames toy_es 0 1) room [ladder 0 d 0] = 3.
+Proof. apply extra_frame_opens_window; vm_compute; try reflexivity; try discriminate; lia. Qed.
